@@ -131,12 +131,17 @@ def rule_yield_filtered(ctx: Ctx, rule: str) -> None:
     for p in paths:
         focus(p)
         for e in p.of('call'):
-            if e[1].endswith('.pop') and e[2] == [0] and e[1][:-4].endswith('[1:]'):
+            if not (e[1].endswith('.pop') and e[2] == [0]):
+                continue
+            recv = e[1][:-4]
+            while recv.endswith('[:]') or recv.endswith("'"):  # a copy of the remainder / the remainder after an earlier pop
+                recv = recv[:-3] if recv.endswith('[:]') else recv[:-1]
+            if recv.endswith('[1:]'):
                 n_r += 1
-                if p.decisions.get(e[1][:-4]) is not True:
+                if p.decisions.get(recv) is not True and p.decisions.get(e[1][:-4]) is not True:
                     bad_r.append(f'{e[1][:60]}(0) without the remainder having been found non-empty')
-    ctx.ob(rule, 'glob:Glob.glob/remainder-tested-before-pop', n_r >= 1 and not bad_r, repo.loc('glob', g.node),
-           'rest = pattern[1:] is popped only under `if rest`', f'{n_r} pops agree' if n_r and not bad_r else (bad_r[0] if bad_r else 'no pop from a remainder found'),
+    ctx.ob(rule, 'glob:Glob.glob/remainder-tested-before-pop', not bad_r, repo.loc('glob', g.node),
+           'a remainder `pattern[1:]` (possibly empty) is popped only after it was found non-empty', f'{n_r} pops agree' if not bad_r else bad_r[0],
            witness="glob('d/') -- a literal directory with nothing after it -- must not raise IndexError (pop from empty list)")
     ctx.ob(rule, 'glob:Glob.glob/literal-start-is-real', n_s >= 3 and not bad_s, repo.loc('glob', g.node),
            'a literal first segment is descended into only if it is a directory and returned only if it exists (lexists relative to the root)',
